@@ -6,6 +6,7 @@ generated definition and breaks the proof.
 -/
 import JubakoModel.Model.Pack
 import JubakoModel.Generated.FuncsCheck
+import JubakoModel.Lemmas.FuncsBytes
 import JubakoModel.Model.Crc
 import JubakoModel.Lemmas.Codec
 
@@ -56,5 +57,25 @@ theorem gen_assertSliceCrc (full : Bytes) :
   by_cases h : (crc32c (List.take (full.length - 4) full)).toNat = be32Nat (List.drop (full.length - 4) full)
   · simp [h]
   · simp [h]
+
+theorem writesBytes_bytes (bs : Bytes) : writesBytes (bs.map (fun (b : UInt8) => (b.toNat, 1))) = bs := by
+  induction bs with
+  | nil => rfl
+  | cons b bs ih =>
+    have : writesBytes ((b :: bs).map (fun (b : UInt8) => (b.toNat, 1))) =
+        leBytes b.toNat 1 ++ writesBytes (bs.map (fun (b : UInt8) => (b.toNat, 1))) := by
+      simp [writesBytes]
+    rw [this, ih]
+    simp [leBytes]
+
+/-- **The check block the creators write is the source's**: `CheckInfo::serialize` translated on every run writes
+    the bytes of the model's `CheckInfo.encode` — `0` alone, or `1` followed by the 32 bytes of the hash. -/
+theorem gen_checkInfoWrites (ci : CheckInfo) :
+    writesBytes (Generated.checkInfoWrites (match ci with | CheckInfo.none => Option.none | CheckInfo.blake3 h => some h)) = ci.encode := by
+  cases ci with
+  | none => simp [Generated.checkInfoWrites, CheckInfo.encode, writesBytes, leBytes]
+  | blake3 h =>
+    simp only [Generated.checkInfoWrites, CheckInfo.encode, List.nil_append, writesBytes_append, writesBytes_bytes]
+    simp [writesBytes, leBytes]
 
 end Jubako
